@@ -291,6 +291,136 @@ func init() {
 			}
 			return []Value{False}
 		},
+		"logIs": func(s *State, fn *ssa.Function, args []Value, where string) []Value {
+			// logIs(i, kind, name): entry i is a channel event ("recv","send","close") on the channel called name
+			e := s.logEntry(args[0])
+			kind := args[1].(*StringV).litOr("")
+			name := args[2].(*StringV).litOr("")
+			return []Value{BoolConst(e.Callee == kind && s.chanName(e.Target) == name)}
+		},
+		"logArg": func(s *State, fn *ssa.Function, args []Value, where string) []Value {
+			e := s.logEntry(args[0])
+			k := asTerm(args[1])
+			if !k.IsConst() || int(k.Val) >= len(e.Args) {
+				return []Value{s.symValue(types.NewInterfaceType(nil, nil), "nologarg")}
+			}
+			v := e.Args[k.Val]
+			if iv, ok := v.(*IfaceV); ok {
+				return []Value{iv}
+			}
+			tid := 0
+			var ty types.Type
+			switch x := v.(type) {
+			case *PtrV:
+				if x.Obj != nil {
+					ty = types.NewPointer(x.Obj.Type)
+				}
+			}
+			if ty != nil {
+				tid = typeID(ty)
+			}
+			if tid == 0 {
+				return []Value{&IfaceV{Type: Const(32, uint64(namedTypeID("opaque:logarg"))), Handle: Const(64, 0), alts: map[int]Value{}}}
+			}
+			return []Value{&IfaceV{Type: Const(32, uint64(tid)), Handle: Const(64, 0), alts: map[int]Value{tid: v}}}
+		},
+		"logArgIsPtr": func(s *State, fn *ssa.Function, args []Value, where string) []Value {
+			e := s.logEntry(args[0])
+			k := asTerm(args[1])
+			if !k.IsConst() || int(k.Val) >= len(e.Args) {
+				return []Value{False}
+			}
+			want := args[2]
+			if iv, ok := want.(*IfaceV); ok && iv.Type.IsConst() {
+				want = iv.alts[int(iv.Type.Val)]
+			}
+			a, ok1 := e.Args[k.Val].(*PtrV)
+			b, ok2 := want.(*PtrV)
+			if !ok1 || !ok2 {
+				return []Value{False}
+			}
+			return []Value{s.ptrEq(a, b)}
+		},
+		"logRetErr": func(s *State, fn *ssa.Function, args []Value, where string) []Value {
+			return []Value{s.logEntry(args[0]).Err}
+		},
+		"lastRecv": func(s *State, fn *ssa.Function, args []Value, where string) []Value {
+			// lastRecv(name): the value most recently received from the channel called name (as `any`)
+			name := args[0].(*StringV).litOr("")
+			for i := len(s.log) - 1; i >= 0; i-- {
+				e := s.log[i]
+				if e.Callee == "recv" && s.chanName(e.Target) == name && len(e.Args) > 0 {
+					if iv, ok := e.Args[0].(*IfaceV); ok {
+						return []Value{iv}
+					}
+				}
+			}
+			return []Value{s.symValue(types.NewInterfaceType(nil, nil), "norecv")}
+		},
+		"logFind": func(s *State, fn *ssa.Function, args []Value, where string) []Value {
+			// logFind(kind, name, k): index of the k-th entry whose callee is kind (and, for channel events, whose
+			// channel is called name), relative to the log base; -1 when there is none
+			kind := args[0].(*StringV).litOr("")
+			name := args[1].(*StringV).litOr("")
+			k := asTerm(args[2])
+			if !k.IsConst() {
+				unsup("logFind with symbolic k")
+			}
+			cnt := 0
+			for i := s.logBase(); i < len(s.log); i++ {
+				e := s.log[i]
+				if e.Callee != kind {
+					continue
+				}
+				if name != "" && s.chanName(e.Target) != name {
+					continue
+				}
+				if uint64(cnt) == k.Val {
+					return []Value{Const(64, uint64(i-s.logBase()))}
+				}
+				cnt++
+			}
+			return []Value{Const(64, ^uint64(0))}
+		},
+		"logCount": func(s *State, fn *ssa.Function, args []Value, where string) []Value {
+			kind := args[0].(*StringV).litOr("")
+			cnt := 0
+			for i := s.logBase(); i < len(s.log); i++ {
+				if s.log[i].Callee == kind {
+					cnt++
+				}
+			}
+			return []Value{Const(64, uint64(cnt))}
+		},
+		"blockingOps": func(s *State, fn *ssa.Function, args []Value, where string) []Value {
+			return []Value{Const(64, uint64(s.blocking))}
+		},
+		"logRetAny": func(s *State, fn *ssa.Function, args []Value, where string) []Value {
+			e := s.logEntry(args[0])
+			k := asTerm(args[1])
+			if !k.IsConst() || int(k.Val) >= len(e.Rets) {
+				return []Value{s.symValue(types.NewInterfaceType(nil, nil), "nologret")}
+			}
+			v := e.Rets[k.Val]
+			if iv, ok := v.(*IfaceV); ok {
+				return []Value{iv}
+			}
+			unsup("logRetAny of %T", v)
+			return nil
+		},
+		"mapHasPtr": func(s *State, fn *ssa.Function, args []Value, where string) []Value {
+			m := args[0].(*MapV)
+			iv := args[1]
+			if x, ok := iv.(*IfaceV); ok && x.Type.IsConst() {
+				iv = x.alts[int(x.Type.Val)]
+			}
+			mc, ok := s.contents(m.Obj).(*MapContents)
+			if !ok {
+				unsup("mapHasPtr on opaque map")
+			}
+			pr, _ := s.mapGet(mc, s.keyTerm(iv), "")
+			return []Value{pr}
+		},
 		"logArgInt": func(s *State, fn *ssa.Function, args []Value, where string) []Value {
 			e := s.logEntry(args[0])
 			k := asTerm(args[1])
@@ -402,6 +532,45 @@ func init() {
 			s.assume(Implies(neg, Eq(um, Add(mul(Sub(sec, Const(64, 1)), 1000000), BinBV("bvsdiv", ns2, Const(64, 1000))))))
 			return []Value{&OpaqueV{Kind: "time.Time", T: t}}
 		},
+		"(*sync.WaitGroup).Add":  logOnly("sync.WaitGroup.Add"),
+		"(*sync.WaitGroup).Done": logOnly("sync.WaitGroup.Done"),
+		"(*sync.WaitGroup).Wait": logOnly("sync.WaitGroup.Wait"),
+		"(*sync.Mutex).Lock":     logOnly("sync.Mutex.Lock"),
+		"(*sync.Mutex).Unlock":   logOnly("sync.Mutex.Unlock"),
+		"context.Background": func(s *State, fn *ssa.Function, args []Value, where string) []Value {
+			return []Value{s.symValue(fn.Signature.Results().At(0).Type(), "ctx.background")}
+		},
+		"context.WithCancel": func(s *State, fn *ssa.Function, args []Value, where string) []Value {
+			s.logEvent("context.WithCancel", nil, args...)
+			return []Value{s.symValue(fn.Signature.Results().At(0).Type(), "ctx"), &OpaqueV{Kind: "func", T: s.freshVar("cancel.fn", BV(64))}}
+		},
+		"context.WithTimeout": func(s *State, fn *ssa.Function, args []Value, where string) []Value {
+			s.logEvent("context.WithTimeout", nil, args...)
+			return []Value{s.symValue(fn.Signature.Results().At(0).Type(), "ctx"), &OpaqueV{Kind: "func", T: s.freshVar("cancel.fn", BV(64))}}
+		},
+		"time.After": func(s *State, fn *ssa.Function, args []Value, where string) []Value {
+			o := s.newObj(fn.Signature.Results().At(0).Type(), &OpaqueV{Kind: "chan"}, "time.After", true)
+			c := &ChanV{Nil: False, Obj: o}
+			s.logEvent("time.After", c, args...)
+			return []Value{c}
+		},
+		"errors.Is": func(s *State, fn *ssa.Function, args []Value, where string) []Value {
+			// no wrapping modelled: Is(err, target) iff err == target
+			return []Value{s.valEq(args[0], args[1])}
+		},
+		"errors.As": func(s *State, fn *ssa.Function, args []Value, where string) []Value {
+			// As(err, &target): true iff the dynamic type of err is the type of *target (wrapping not modelled)
+			err := args[0].(*IfaceV)
+			tgt := args[1].(*IfaceV)
+			if !tgt.Type.IsConst() {
+				unsup("errors.As with unknown target type")
+			}
+			pt, ok := typeByID[int(tgt.Type.Val)].(*types.Pointer)
+			if !ok {
+				unsup("errors.As target")
+			}
+			return []Value{Eq(err.Type, Const(32, uint64(typeID(pt.Elem()))))}
+		},
 		"bytes.Repeat": func(s *State, fn *ssa.Function, args []Value, where string) []Value {
 			b := args[0].(*SliceV)
 			cnt := asTerm(args[1])
@@ -470,6 +639,28 @@ func init() {
 			id := asTerm(s.navigate(s.contents(p.object()), []Sel{{Field: 0}}))
 			s.pure = saved
 			return []Value{Ite(isRaw, id, other)}
+		},
+		"context.Context.Done": func(s *State, recv *IfaceV, args []Value, where string) []Value {
+			if s.doneChans == nil {
+				s.doneChans = map[int]*ChanV{}
+			}
+			if c, ok := s.doneChans[recv.Handle.id]; ok {
+				return []Value{c}
+			}
+			o := s.newObj(types.NewChan(types.RecvOnly, types.NewStruct(nil, nil)), &OpaqueV{Kind: "chan"}, "ctx.Done", false)
+			c := &ChanV{Nil: False, Obj: o}
+			s.doneChans[recv.Handle.id] = c
+			return []Value{c}
+		},
+		"io.ReadWriteCloser.Close": func(s *State, recv *IfaceV, args []Value, where string) []Value {
+			err := s.symValue(errorType(), "close.err")
+			s.log = append(s.log, LogEntry{Callee: "io.Closer.Close", Target: recv, Arr: &ArrZero{W: 8}, Off: Const(64, 0), N: Const(64, 0), RetN: Const(64, 0), Err: err})
+			return []Value{err}
+		},
+		"io.Closer.Close": func(s *State, recv *IfaceV, args []Value, where string) []Value {
+			err := s.symValue(errorType(), "close.err")
+			s.log = append(s.log, LogEntry{Callee: "io.Closer.Close", Target: recv, Arr: &ArrZero{W: 8}, Off: Const(64, 0), N: Const(64, 0), RetN: Const(64, 0), Err: err})
+			return []Value{err}
 		},
 		"net.Conn.SetReadDeadline":  connCall("SetReadDeadline"),
 		"net.Conn.SetWriteDeadline": connCall("SetWriteDeadline"),
@@ -880,12 +1071,7 @@ func ghostUF(s *State, fn *ssa.Function, args []Value, where string) []Value {
 		case *Term:
 			ts = append(ts, x)
 		case *PtrV:
-			o := x.object()
-			if o == nil {
-				ts = append(ts, Const(64, 0))
-			} else {
-				ts = append(ts, Ite(x.Nil, Const(64, 0), Const(64, uint64(1000000+o.ID))))
-			}
+			ts = append(ts, s.ptrID(x))
 		case *SliceV:
 			arr, off := canonArr(s.sliceArr(x), x.Off, x.Len)
 			arrUF[name] = len(ts)
@@ -914,4 +1100,11 @@ func (e *LogEntry) targetHandle() *Term {
 		return iv.Handle
 	}
 	return App("logtarget_handle", BV(64), e.N)
+}
+
+func logOnly(name string) intrinsicFn {
+	return func(s *State, fn *ssa.Function, args []Value, where string) []Value {
+		s.logEvent(name, nil, args...)
+		return nil
+	}
 }
